@@ -349,11 +349,11 @@ def run(ctx):
     rha = ctx.rule('R-HANDLEASSIGN', 'IntrusivePtr same-type move assignment swaps (the handles\' defaulted move '
                    'assignment relies on the moved-from destructor protocol)', minimum=4)
     for cfg, fb in sorted(fbs.items()):
-        lib_core.check_handle_assign(ctx, fb, rha)
-        check_core(ctx, fb, ro, rf, rb)
-        lib_core.check_after_release(ctx, fb, ra)
-        check_delete(ctx, fb, rd, ctx.root)
-        check_unique_job(ctx, fb, ru)
-        check_strategy_dtors(ctx, fb, rs)
-        c12.check_cancel(ctx, fb, rc)
-        lib_core.check_shared_walk(ctx, fb, rp)
+        ctx.guard(lambda: lib_core.check_handle_assign(ctx, fb, rha))
+        ctx.guard(lambda: check_core(ctx, fb, ro, rf, rb))
+        ctx.guard(lambda: lib_core.check_after_release(ctx, fb, ra))
+        ctx.guard(lambda: check_delete(ctx, fb, rd, ctx.root))
+        ctx.guard(lambda: check_unique_job(ctx, fb, ru))
+        ctx.guard(lambda: check_strategy_dtors(ctx, fb, rs))
+        ctx.guard(lambda: c12.check_cancel(ctx, fb, rc))
+        ctx.guard(lambda: lib_core.check_shared_walk(ctx, fb, rp))
